@@ -3,7 +3,7 @@
 From Coq Require Import ExtrOcamlBasic.
 From Coq Require Import List ZArith String.
 From Coq Require Import NArith.
-From IprV Require Import GenTypes Visitor Bits Arena Lexicon LexiconProofs Derived Schema Typing.
+From IprV Require Import GenTypes Visitor Bits Arena Lexicon LexiconProofs Derived Schema Typing Stability.
 From IprV.gen Require Import GenCategory GenIface GenVisitor GenAccept GenWords GenLexAcc GenDerived GenFactory GenTypeRule.
 Import ListNotations.
 Local Open Scope bool_scope.
@@ -82,7 +82,11 @@ Definition c09_growth (kind : string) (ts : list nat) : list tval :=
              [{| t_cat := kind; t_slots := []; t_typing := None; t_members := [] |}])%list in
   map (fun k => type_of c09_rule_of 3 (fold_left (fun h m => add_member h n m) (seq 0 k) h0) n) (seq 0 (S n)).
 
+(* C05: an abstract history: container creations and member additions; the model's member lists *)
+Definition c05_members (ops : list hop) : list (list nat) := map t_members (hrun ops).
+
 Extraction "extracted/genmodel.ml" c06_rows
+  c05_members
   c09_prescribed c09_source_rule c09_growth
   c02_find c02_expect c02_model_node c02_exempt c02_factories
   lex_step lex_key_of lex_xfer_val lex_linkage_word lex_cc_word lex_fundamental lex_builtin_spellings
